@@ -3,7 +3,7 @@
  * or fault injecting), link-time wrappers that record each endpoint's own view of the handshake
  * (records sent/received by the handshake drivers, ECDH result, TLCP pre-master secret).
  *
- * Link with: -Wl,--wrap=tls_record_send,--wrap=tls_record_recv,--wrap=sm2_do_ecdh,--wrap=tls_pre_master_secret_generate
+ * Link with: -Wl,--wrap=tls_record_send,--wrap=tls_record_recv,--wrap=sm2_do_ecdh,--wrap=tls_pre_master_secret_generate,--wrap=tls_record_set_handshake_certificate
  * Include after common.h and entropy.h, in exactly one translation unit. */
 #ifndef VERIF_TLS_PEER_H
 #define VERIF_TLS_PEER_H
@@ -113,6 +113,16 @@ static void view_add(int dir, const uint8_t *rec, size_t len) {
 	v->io_count++;
 	if (v->n < MAXREC) { v->r[v->n].dir = dir; v->r[v->n].p = malloc(len ? len : 1); memcpy(v->r[v->n].p, rec, len); v->r[v->n].len = len; v->n++; }
 }
+/* a misbehaving client for the "empty Certificate message" row: when set in the calling thread,
+ * the Certificate message the TLCP / TLS 1.2 client builds carries an empty certificate list
+ * (the client hashes what it sends, so the transcripts stay consistent and only the server's own
+ * guards can stop the handshake).  Link with --wrap=tls_record_set_handshake_certificate. */
+static __thread int cur_empty_cert = 0;
+int __real_tls_record_set_handshake_certificate(uint8_t *record, size_t *recordlen, const uint8_t *certs, size_t certslen);
+int __wrap_tls_record_set_handshake_certificate(uint8_t *record, size_t *recordlen, const uint8_t *certs, size_t certslen) {
+	if (cur_empty_cert) return __real_tls_record_set_handshake_certificate(record, recordlen, certs, 0);
+	return __real_tls_record_set_handshake_certificate(record, recordlen, certs, certslen);
+}
 int __real_tls_record_send(const uint8_t *record, size_t recordlen, tls_socket_t sock);
 int __real_tls_record_recv(uint8_t *record, size_t *recordlen, tls_socket_t sock);
 int __real_sm2_do_ecdh(const SM2_KEY *key, const SM2_Z256_POINT *peer_public, SM2_Z256_POINT *out);
@@ -139,11 +149,12 @@ int __wrap_tls_pre_master_secret_generate(uint8_t pms[48], int protocol) {
 }
 
 /* ------------------------------------------------------------------ proxy */
-enum { F_NONE = 0, F_FLIP, F_DROP, F_DUP, F_SWAP, F_TRUNC_CLOSE, F_TRUNC_FIXLEN, F_INJECT };
+enum { F_NONE = 0, F_FLIP, F_DROP, F_DUP, F_SWAP, F_TRUNC_CLOSE, F_TRUNC_FIXLEN, F_INJECT, F_REPLACE };
 typedef struct {
 	int kind, dir, idx;            /* dir 0 = client->server; idx = record index in that direction */
 	size_t off; int bit;           /* F_FLIP: byte offset inside the record (header included), bit */
 	size_t keep;                   /* F_TRUNC_*: bytes of the record to deliver */
+	const uint8_t *repl; size_t repllen;   /* F_REPLACE: the record delivered instead */
 	int applied;
 } fault_t;
 #define PMAXREC 512
@@ -188,6 +199,7 @@ static int px_forward(proxy_t *p, int d, uint8_t *rec, size_t len, uint8_t **hel
 		case F_SWAP: *held = malloc(len); memcpy(*held, rec, len); *heldlen = len; return 0;
 		case F_TRUNC_CLOSE: px_write(p, out, rec, f->keep < len ? f->keep : len); return -2;   /* then cut the line */
 		case F_TRUNC_FIXLEN: { size_t k = f->keep < len ? f->keep : len; if (k < 5) k = 5; rec[3] = (uint8_t)((k - 5) >> 8); rec[4] = (uint8_t)(k - 5); return px_write(p, out, rec, k); }
+		case F_REPLACE: return px_write(p, out, f->repl, f->repllen);
 		case F_INJECT: { uint8_t inj[5 + 4] = { 22, rec[1], rec[2], 0, 4, 0, 0, 0, 0 }; return px_write(p, out, inj, sizeof inj) || px_write(p, out, rec, len); }
 		}
 	}
@@ -227,16 +239,20 @@ static void *proxy_main(void *arg) {
 static void proxy_free(proxy_t *p) { int d, i; for (d = 0; d < 2; d++) for (i = 0; i < 32; i++) free(p->copy[d][i]); }
 
 /* ------------------------------------------------------------------ endpoints */
+#define PMAXMSG 4
+typedef struct { size_t len, pad; } pmsg_t;       /* an application message: length, TLS 1.3 padding */
 typedef struct {
 	int protocol, is_client;
 	TLS_CTX ctx; TLS_CONNECT *conn;          /* conn is an exactly sized heap block */
 	int sock; int hs_ret; uint64_t seed; time_t clock;
 	view_t view;
-	int post;                                /* after a successful handshake: send two application messages, then receive three times */
-	int post_send_ret, post_recv_ret; size_t post_recv_len; uint8_t post_buf[64];   /* first receive */
-	int post_rets[3]; size_t post_lens[3];
+	int post;                                /* after a successful handshake: send the planned application messages, then receive */
+	pmsg_t plan[PMAXMSG]; int nplan; int crafted;   /* nplan == 0: two 16-byte messages through tls_send / tls13_send */
+	int post_send_ret, post_recv_ret; size_t post_recv_len;   /* first send / first receive */
+	int post_rets[PMAXMSG + 2]; size_t post_lens[PMAXMSG + 2]; int post_ncalls;
 	int post_accepted;                       /* number of receive calls that returned 1 */
 	int post_deviates;                       /* some accepted payload is not the next message the peer sent */
+	int empty_cert;                          /* client only: send a Certificate message with an empty list (TLCP / TLS 1.2) */
 	pthread_t th;
 } endpoint_t;
 
@@ -251,30 +267,79 @@ static int ep_send(endpoint_t *e, const uint8_t *b, size_t n, size_t *sent) {
 static int ep_recv(endpoint_t *e, uint8_t *b, size_t n, size_t *got) {
 	return e->protocol == TLS_protocol_tls13 ? tls13_recv(e->conn, b, n, got) : tls_recv(e->conn, b, n, got);
 }
+int tls13_record_encrypt(const BLOCK_CIPHER_KEY *key, const uint8_t iv[12],
+	const uint8_t seq_num[8], const uint8_t *record, size_t recordlen, size_t padding_len,
+	uint8_t *enced_record, size_t *enced_recordlen);
+/* an honest peer written with the library's record functions and the connection's own keys and
+ * sequence number: can emit what tls_send / tls13_send cannot (empty records for TLCP / TLS 1.2,
+ * TLS 1.3 records with padding) */
+static int ep_send_crafted(endpoint_t *e, const uint8_t *data, size_t n, size_t pad) {
+	TLS_CONNECT *c = e->conn; uint8_t *rec = malloc(5 + n + 1), *out = malloc(5 + n + 600); size_t outlen = 0; int r;
+	uint8_t *seq = e->is_client ? c->client_seq_num : c->server_seq_num;
+	rec[0] = 23; rec[3] = (uint8_t)(n >> 8); rec[4] = (uint8_t)n; if (n) memcpy(rec + 5, data, n);
+	if (e->protocol == TLS_protocol_tls13) {
+		rec[1] = 3; rec[2] = 3;
+		r = tls13_record_encrypt(e->is_client ? &c->client_write_key : &c->server_write_key,
+			e->is_client ? c->client_write_iv : c->server_write_iv, seq, rec, 5 + n, pad, out, &outlen);
+	} else {
+		rec[1] = (uint8_t)(e->protocol >> 8); rec[2] = (uint8_t)e->protocol;
+		r = tls_record_encrypt(e->is_client ? &c->client_write_mac_ctx : &c->server_write_mac_ctx,
+			e->is_client ? &c->client_write_enc_key : &c->server_write_enc_key, seq, rec, 5 + n, out, &outlen);
+	}
+	if (r == 1) { tls_seq_num_incr(seq); r = tls_record_send(out, outlen, c->sock); }
+	free(rec); free(out);
+	return r;
+}
+static uint8_t pmsg_byte(int is_client, int k, size_t i) { return (uint8_t)((is_client ? 0x40 : 0x80) + k * 17 + i * 3 + (i >> 8)); }
+
 static void *endpoint_main(void *arg) {
 	endpoint_t *e = arg;
 	ent_seed(e->seed, -1); ent_clock(e->clock);
-	cur_view = &e->view;
+	cur_view = &e->view; cur_empty_cert = e->empty_cert;
 	e->hs_ret = tls_do_handshake(e->conn);
-	cur_view = NULL;
-	e->post_send_ret = e->post_recv_ret = -99; e->post_rets[0] = e->post_rets[1] = e->post_rets[2] = -99;
+	cur_view = NULL; cur_empty_cert = 0;
+	e->post_send_ret = e->post_recv_ret = -99;
 	if (e->hs_ret == 1 && e->post) {
-		static const char *cm[2] = { "ping-from-client", "2nd-msg-of-client" }, *sm[2] = { "pong-from-server", "2nd-msg-of-server" };
-		const char **mine = e->is_client ? cm : sm, **peer = e->is_client ? sm : cm; size_t sent = 0; int i, next = 0;
-		e->post_send_ret = ep_send(e, (const uint8_t *)mine[0], 16, &sent);
-		if (e->post_send_ret == 1) ep_send(e, (const uint8_t *)mine[1], 16, &sent);
-		for (i = 0; i < 3; i++) {
-			uint8_t buf[64]; size_t got = 0; int r = ep_recv(e, buf, sizeof buf, &got);
-			e->post_rets[i] = r; e->post_lens[i] = r == 1 ? got : 0;
-			if (i == 0) { e->post_recv_ret = r; e->post_recv_len = r == 1 ? got : 0; if (r == 1 && got <= sizeof e->post_buf) memcpy(e->post_buf, buf, got); }
+		static const pmsg_t dflt[2] = { { 16, 0 }, { 16, 0 } };
+		const pmsg_t *plan = e->nplan ? e->plan : dflt; int np = e->nplan ? e->nplan : 2;
+		uint8_t *buf = malloc(20000), *exp = malloc(20000); int i, next = 0, fails = 0; size_t j;
+		for (i = 0; i < np; i++) {
+			size_t sent = 0; int r;
+			for (j = 0; j < plan[i].len; j++) buf[j] = pmsg_byte(e->is_client, i, j);
+			if (e->crafted || plan[i].len == 0 || plan[i].pad) r = ep_send_crafted(e, buf, plan[i].len, plan[i].pad);
+			else r = ep_send(e, buf, plan[i].len, &sent);
+			if (i == 0) e->post_send_ret = r;
+			if (r != 1) break;
+		}
+		for (i = 0; i < np + 2 && fails < 2; i++) {
+			size_t got = 0; int r = ep_recv(e, buf, 20000, &got);
+			e->post_rets[i] = r; e->post_lens[i] = r == 1 ? got : 0; e->post_ncalls = i + 1;
+			if (i == 0) { e->post_recv_ret = r; e->post_recv_len = r == 1 ? got : 0; }
 			if (r == 1) {
 				e->post_accepted++;
-				if (next < 2 && got == 16 && !memcmp(buf, peer[next], 16)) next++; else e->post_deviates = 1;
-			}
+				if (next < np && got == plan[next].len) {
+					for (j = 0; j < got; j++) exp[j] = pmsg_byte(!e->is_client, next, j);
+					if (got && memcmp(buf, exp, got)) e->post_deviates = 1;
+					next++;
+				} else e->post_deviates = 1;
+			} else fails++;
 		}
+		free(buf); free(exp);
 	}
 	if (e->hs_ret != 1 || e->post) shutdown(e->sock, SHUT_RDWR);   /* a finished endpoint hangs up */
 	return NULL;
+}
+
+/* "[x]len[:pad],len[:pad],..." -> plan; a leading x = every message through ep_send_crafted */
+static void ep_plan(endpoint_t *e, const char *spec) {
+	e->nplan = 0; e->crafted = 0;
+	if (!spec || !strcmp(spec, "d")) return;
+	if (*spec == 'x') { e->crafted = 1; spec++; }
+	while (*spec && e->nplan < PMAXMSG) {
+		char *end; e->plan[e->nplan].len = strtoul(spec, &end, 10); e->plan[e->nplan].pad = 0;
+		if (*end == ':') e->plan[e->nplan].pad = strtoul(end + 1, &end, 10);
+		e->nplan++; spec = *end == ',' ? end + 1 : end;
+	}
 }
 
 /* configure an endpoint from explicit credential pieces (any may be absent) */
